@@ -456,6 +456,12 @@ func runC14(r *Run) int {
 			// a twin whose own score/severity/encoding/report are queried BEFORE its views are read
 			if tw, err, _ := lib.DecodeAuto(k, s); err == nil && !tw.IsNil() {
 				tw.Observe()
+				if Hash(s)%257 == 0 { // a hot object: thousands of queries before its views are read
+					for q := 0; q < 5000; q++ {
+						tw.Score()
+					}
+					w.Count("objects_scored_5000_times_before_their_views_were_read")
+				}
 				doOp(tw, 8, 1)
 				tbv, _, _ := tw.BaseView()
 				cmpView(w, "BaseMetrics() read after the higher-level object was queried", c, tbv, lib.K3B, proj(spec.LBase))
@@ -522,6 +528,12 @@ func runC14(r *Run) int {
 			c := decodeCase(k, s, false)
 			if tw, err, _ := lib.DecodeAuto(k, s); err == nil && !tw.IsNil() {
 				tw.Observe()
+				if Hash(s)%257 == 0 { // a hot object: thousands of queries before its views are read
+					for q := 0; q < 5000; q++ {
+						tw.Score()
+					}
+					w.Count("objects_scored_5000_times_before_their_views_were_read")
+				}
 				tbv, _, _ := tw.BaseView()
 				cmpView(w, "BaseMetrics() read after the higher-level object was queried", c, tbv, lib.K2B, v.BaseString())
 				if D == spec.LEnv {
